@@ -98,7 +98,7 @@ func vPut(kind cache.EntryKind, mode casblob.CompressionType, maxN int, maxChunk
 		if cnt == n {
 			vsym.Reach("put-refused-index-untouched")
 		}
-		d.checkDirEqualsIndex("put-refused")
+		d.checkDirEqualsIndex("put-refused/C01-C12")
 		if existing {
 			_, el := c.lru.Get(key)
 			if el != nil {
